@@ -82,7 +82,9 @@ def cases(draw, tier="quick"):
         ncomp = draw(st.sampled_from([1, 1, 2, 3]))
         recipe = dict(kind=kind, exprs=[draw(st.integers(0, len(EXPRS) - 1)) for _ in range(ncomp)],
                       vars=[draw(st.integers(0, nf - 1)) for _ in range(3)],
-                      doc=draw(st.booleans()) or ncomp > 1, stack=draw(st.sampled_from(["stack", "moveaxis"])))
+                      doc=draw(st.booleans()) or ncomp > 1, stack=draw(st.sampled_from(["stack", "moveaxis"])),
+                      # what the recipe returns: the float64 expressions, a boolean mask, integer flags or single precision
+                      cast=[None, None, None, "bool", "int64", "float32"][draw(st.integers(0, 2 ** 16)) % 6])
     else:
         pre = draw(st.sampled_from([[], ["density"], ["x_velocity", "rhoh"]]))
         post = draw(st.sampled_from([[], ["mag_vort"], ["volFrac", "phi"]]))
@@ -109,7 +111,7 @@ def cases(draw, tier="quick"):
         if draw(st.integers(0, 3)) == 0:
             kept.insert(draw(st.integers(0, len(kept))), "no_such_field")
     nlev = spec["mesh"]["nlev"]
-    return dict(spec=spec, recipe=recipe, kept=kept, serial=draw(st.booleans()),
+    return dict(spec=spec, recipe=recipe, kept=kept, serial=draw(st.booleans()), sep=draw(st.sampled_from([" ", " ", "  ", "\t", "\n", " \n"])),
                 cli=(kind != "callable") and draw(st.sampled_from([False, False, True])),
                 sched=dict(exec=[draw(st.lists(st.integers(0, 7), max_size=4)) for _ in range(nlev)],
                            comp=[draw(st.lists(st.integers(0, 7), max_size=4)) for _ in range(nlev)], lazy=draw(st.booleans())))
@@ -120,6 +122,16 @@ def compact(case):
                 serial=case["serial"], sched=case["sched"])
 
 
+def cast_comps(comps, cast):
+    """expressions of a recipe that returns something else than float64"""
+    if cast in ("bool", "int64"):
+        # a mask / flag recipe: comparisons of the expressions with the first variable (no float -> int casts of NaN)
+        return [f"(({c}) > a)" + ("" if cast == "bool" else ".astype('int64')") for c in comps]
+    if cast == "float32":
+        return [f"({c}).astype('float32')" for c in comps]
+    return list(comps)
+
+
 def user_recipe_source(rec, fields):
     names = [f"new{i}" for i in range(len(rec["exprs"]))]
     src = ["import numpy as np", "", "def recipe(field_indexes, box_array):"]
@@ -128,9 +140,11 @@ def user_recipe_source(rec, fields):
     for v, i in zip("abc", rec["vars"]):
         src.append(f"    {v} = box_array[..., field_indexes[{fields[i]!r}]]")
     comps = [EXPRS[e] for e in rec["exprs"]]
+    cast = rec.get("cast")
+    comps = cast_comps(comps, cast)
     src.append("    with np.errstate(all='ignore'):")
     if len(comps) == 1:
-        src.append(f"        return {comps[0]} + 0.0")
+        src.append(f"        return {comps[0]}" + (" + 0.0" if cast is None else ""))
     elif rec["stack"] == "stack":
         src.append(f"        return np.stack([{', '.join(comps)}], axis=-1)")
     else:
@@ -195,7 +209,11 @@ def check_case(case, ctx):
     kept_known = [k for k in (kept or []) if k in fields]
     ctx.label(*labs, "recipe:" + rec["kind"] + (":" + rec["name"] if rec["kind"] == "builtin" else ""),
               "serial" if case["serial"] else "parallel", "kept" if kept_known else "no-kept")
-    kw = dict(outfile="out", serial=case["serial"], kept_fields=None if kept is None else " ".join(kept))
+    kw = dict(outfile="out", serial=case["serial"], kept_fields=None if kept is None else case.get("sep", " ").join(kept))
+    if rec.get("cast"):
+        ctx.label("recipe-returns:" + rec["cast"])
+    if kept is not None and case.get("sep", " ") != " ":
+        ctx.label("kept-list-separator:" + repr(case["sep"]))
     ns = {}
     if rec["kind"] in ("user", "callable"):
         src, new_names = user_recipe_source(rec, fields)
